@@ -598,7 +598,7 @@ func (fx *fexec) invoke(x *ssa.Call, st *State) Val {
 	}
 	it := types.Unalias(vc.resolve(cc.Value.Type()))
 	name := ""
-	if n, ok := it.(*types.Named); ok {
+	if n, ok := it.(*types.Named); ok && n.Obj().Pkg() != nil {
 		name = n.Obj().Pkg().Path() + "." + n.Obj().Name() + "." + cc.Method.Name()
 	} else if it.String() == "error" {
 		name = "error." + cc.Method.Name()
